@@ -45,6 +45,10 @@ func main() {
 		err = genRedirClient(os.Args[2], os.Args[3])
 	case "sampleacquire":
 		err = genSampleAcquire(os.Args[2], os.Args[3])
+	case "encaggr":
+		err = genEncAggr(os.Args[2], os.Args[3])
+	case "plugconv":
+		err = genPlugConv(os.Args[2], os.Args[3])
 	case "register":
 		err = genRegister(os.Args[2], os.Args[3])
 	case "grpcwarmup":
